@@ -75,6 +75,10 @@ pub fn leak_of_history(cfg: &Cfg, seed: u64, calls: &[Call]) -> isize {
                     g.min_opcodes = *a;
                     g.max_opcodes = *b;
                 }
+                Call::SetFlags(e, b) => {
+                    g.allow_ext_opcodes = *e;
+                    g.allow_buffer_opcodes = *b;
+                }
                 Call::Bytes(b) => {
                     let _w = crate::watch::enter(cfg, b, None);
                     let r = catch_unwind(AssertUnwindSafe(|| g.generate_from_arbitrary(b)));
